@@ -42,14 +42,17 @@ def _write_replay(prop, bucket, regress=False):
     return os.path.relpath(path, VERIF) if harness.OUT == VERIF else path
 
 
-AMBIENT_ENV = {'VERIF_AMBIENT': '1', 'TZ': 'Pacific/Kiritimati', 'PYTHONWARNINGS': 'default'}
-AMBIENT_SETTINGS = ('python -O (asserts compiled away), TZ=Pacific/Kiritimati (UTC+14), a working directory holding decoy files named like the library\'s data files, '
+AMBIENT_ENV = {'VERIF_AMBIENT': '1', 'TZ': 'Pacific/Kiritimati', 'PYTHONWARNINGS': 'default',
+               # a process whose locale encoding is ASCII (no UTF-8 mode, no locale coercion): files opened without encoding=
+               # are read as ASCII; the harness's own output stays UTF-8
+               'LC_ALL': 'C', 'LANG': 'C', 'PYTHONUTF8': '0', 'PYTHONCOERCECLOCALE': '0', 'PYTHONIOENCODING': 'utf-8'}
+AMBIENT_SETTINGS = ('python -O (asserts compiled away) -X int_max_str_digits=0, ASCII locale encoding (LC_ALL=C, no UTF-8 mode), TZ=Pacific/Kiritimati (UTC+14), a working directory holding decoy files named like the library\'s data files, '
                     'today\'s date five years on, node under LC_ALL=ar_EG.UTF-8, and around every library call made through '
                     'vlib.lib.call: decimal context prec=6 ROUND_FLOOR / prec=3 ROUND_UP (by a hash of the call), warnings raised as errors, sys.stderr = None')
 
 
 def _ambient_cmd(prop, extra):
-    return [sys.executable, '-O', '-m', 'vlib.run', prop] + extra
+    return [sys.executable, '-O', '-X', 'int_max_str_digits=0', '-m', 'vlib.run', prop] + extra
 
 
 def _decoy_dir(out):
@@ -70,7 +73,7 @@ def _decoy_dir(out):
         for fn in files:
             if fn.endswith('.json'):
                 try:
-                    with open(os.path.join(root, fn)) as f:
+                    with open(os.path.join(root, fn), encoding='utf-8') as f:
                         doc = json.load(f)
                     with open(os.path.join(d, fn), 'w') as f:
                         json.dump(scale(doc), f)
